@@ -137,10 +137,13 @@ func libComp(cp qComp) nasType.PacketFilterComponent {
 	switch cp.Type {
 	case 0x01:
 		return &nasType.PacketFilterMatchAll{}
+	// octet-string fields are handed over the way a caller holds them: each a window into a larger buffer of its own,
+	// with spare capacity behind it (a serialiser that appends to a field it was given writes into the caller's memory;
+	// the guards are checked after serialising)
 	case 0x10:
-		return &nasType.PacketFilterIPv4RemoteAddress{Address: net.IP(v[0:4]), Mask: net.IPMask(v[4:8])}
+		return &nasType.PacketFilterIPv4RemoteAddress{Address: net.IP(guardIn(v[0:4])), Mask: net.IPMask(guardIn(v[4:8]))}
 	case 0x11:
-		return &nasType.PacketFilterIPv4LocalAddress{Address: net.IP(v[0:4]), Mask: net.IPMask(v[4:8])}
+		return &nasType.PacketFilterIPv4LocalAddress{Address: net.IP(guardIn(v[0:4])), Mask: net.IPMask(guardIn(v[4:8]))}
 	case 0x30:
 		return &nasType.PacketFilterProtocolIdentifier{Value: v[0]}
 	case 0x40:
@@ -158,9 +161,9 @@ func libComp(cp qComp) nasType.PacketFilterComponent {
 	case 0x80:
 		return &nasType.PacketFilterFlowLabel{Label: uint32(v[0])<<16 | uint32(v[1])<<8 | uint32(v[2])}
 	case 0x81:
-		return &nasType.PacketFilterDestinationMACAddress{MAC: net.HardwareAddr(v)}
+		return &nasType.PacketFilterDestinationMACAddress{MAC: net.HardwareAddr(guardIn(v))}
 	case 0x82:
-		return &nasType.PacketFilterSourceMACAddress{MAC: net.HardwareAddr(v)}
+		return &nasType.PacketFilterSourceMACAddress{MAC: net.HardwareAddr(guardIn(v))}
 	case 0x83:
 		return &nasType.PacketFilterCTagVID{VID: u16(0)}
 	case 0x84:
@@ -253,13 +256,20 @@ func c15RulesExec(c *core.Ctx, in c15Rules) {
 	var enc []byte
 	var err, err2 error
 	var back nasType.QoSRules
+	wm := ""
 	pi := core.Try(func() {
+		guardReset()
 		v := libRules(in.Rules)
 		enc, err = v.MarshalBinary()
+		wm = guardCheck()
 		if err == nil {
 			err2 = back.UnmarshalBinary(guardIn(enc))
 		}
 	})
+	if wm != "" && pi == nil {
+		fail("serialise-writes-to-callers-memory", fmt.Sprintf("serialising the list (address, mask and MAC values are windows into larger caller-owned buffers): %s", wm))
+		return
+	}
 	if w := guardCheck(); w != "" && pi == nil {
 		fail("parse-writes-to-callers-buffer", fmt.Sprintf("parsing %x: %s", clip(enc), w))
 		return
